@@ -117,8 +117,13 @@ func c05(c *Ctx) {
 				if ctx != "top" && !c.Thorough() && vi%2 == 1 {
 					continue
 				}
-				second := rootVals[(vi+1)%len(rootVals)].M
+				secondLV := rootVals[(vi+1)%len(rootVals)]
+				second := secondLV.M
 				M := wrapInContext(ctxMD, rootMD, []*dynamicpb.Message{rv.M, second})
+				vclass := rv.Class
+				if ctx == "repeated" || ctx == "map" || ctx == "root_list" {
+					vclass += "+" + secondLV.Class
+				}
 				norm := jsonmap.Norm(M)
 				wantTree, merr := enc.Message(M)
 				if merr != nil {
@@ -126,7 +131,7 @@ func c05(c *Ctx) {
 					continue
 				}
 				// ---- response direction ----
-				caseID := fmt.Sprintf("%s/ctx=%s/dir=resp@%s", base, ctx, rv.Class)
+				caseID := fmt.Sprintf("%s/ctx=%s/dir=resp@%s", base, ctx, vclass)
 				if c.Want(caseID) {
 					gs.Script(rpc, map[string]any{"resp": b64(wire(M))})
 					emptyTree, _ := enc.Message(dynamicpb.NewMessage(ctxMD))
@@ -169,7 +174,7 @@ func c05(c *Ctx) {
 					}
 				}
 				// ---- request direction ----
-				caseID = fmt.Sprintf("%s/ctx=%s/dir=req@%s", base, ctx, rv.Class)
+				caseID = fmt.Sprintf("%s/ctx=%s/dir=req@%s", base, ctx, vclass)
 				if c.Want(caseID) {
 					gs.Script(rpc, map[string]any{})
 					body := jsonmap.Marshal(wantTree)
@@ -195,7 +200,7 @@ func c05(c *Ctx) {
 					} else {
 						got := dynamicpb.NewMessage(ctxMD)
 						_ = proto.Unmarshal(unb64(hs[0].Str("req")), got)
-						if !proto.Equal(got, norm) {
+						if !proto.Equal(jsonmap.Norm(got), norm) {
 							rp["handler_saw"] = fmt.Sprint(got)
 							c.R.Violate(caseID, "request-changed", diffFields(norm, got), rp)
 						}
